@@ -169,10 +169,21 @@ class BaseScanner(ABC):
 
             for device_service in devices[address].services:
                 # Apply service_info after adding all services in case a merge happens.
-                # We know services are of type MutableService here.
-                await self._service_infos[device_service.protocol](
-                    cast(MutableService, device_service), device_info, properties_map
-                )
+                # We know services are of type MutableService here. Properties come
+                # from the network, so one service with bad content must not make
+                # discovery fail for all devices.
+                try:
+                    await self._service_infos[device_service.protocol](
+                        cast(MutableService, device_service),
+                        device_info,
+                        properties_map,
+                    )
+                except Exception:
+                    _LOGGER.exception(
+                        "Failed to update service info for %s at %s",
+                        device_service.protocol,
+                        address,
+                    )
 
         return devices
 
@@ -239,7 +250,14 @@ class BaseScanner(ABC):
             service_info = self._services.get(service_name)
             if service_info:
                 _, extractor = service_info
-                dict_merge(device_info, extractor(service_name, service_properties))
+                try:
+                    dict_merge(device_info, extractor(service_name, service_properties))
+                except Exception:
+                    _LOGGER.exception(
+                        "Failed to extract device info from %s at %s",
+                        service_name,
+                        device.address,
+                    )
 
         # If model was discovered via _device-info._tcp.local, manually add that
         # to the device info
